@@ -151,7 +151,8 @@ def byline_rows(idx, nlines=3, scenario="plain", collect=False, members=2):
         "reader.next": lambda i, c, r, a, k: [Residual(f"L{j}") for j in range(nlines)],
         "._consider_line": consider,
         ".track_line": track,
-        ".limit_collection": lambda i, c, r, a, k: a[0],
+        # a member's collect() projection is that member's own: the line the next member considers and the line the caller gets stay the reader's
+        ".limit_collection": lambda i, c, r, a, k: Residual(f"limited[{getattr(r, 'name', r)}]({a[0].text if isinstance(a[0], Residual) else a[0]})"),
         "self.results_manager.save": _rec("save"),
         "self.results_manager.complete_run": _rec("complete_run", keep_kwargs=True),
         "self.clear_run_coordination": _rec("clear_run_coordination"),
